@@ -334,7 +334,9 @@ def run_program(case):
             "recs": [str(r) for r in wl[n0:]],
             "shrunk": len(wl) < n0,
             "lw": [{"vols": vols_obs(lw), "hlen": len(lw._history), "last": lw._labels[-1] if lw._labels else None,
-                    "nlabels": len(lw._labels)} for lw in lws],
+                    "nlabels": len(lw._labels),
+                    "last_eq": bool(lw._history) and bool(numpy.array_equal(lw._history[-1], lw._volumes, equal_nan=True)),
+                    "labels": list(lw._labels)} for lw in lws],
             "comp": {str(k): comp_obs(lws[k]) for k in touched(op)},
         }
         obs["steps"].append(step)
